@@ -88,6 +88,15 @@ class Ctx:
     def broken(self, msg):
         raise AnalysisBroken(msg)
 
+    def include(self, prop):
+        """evaluate the rule pack of another property inside this check (its rule ids are kept): used by the end-to-end properties, whose
+        truth rests on the structural clauses of the theories and of the language front end."""
+        cfg0 = self.cfg
+        mod = importlib.import_module('orv.rules.' + prop)
+        mod.run(self)
+        self.cfg = cfg0
+        self.included = getattr(self, 'included', []) + [prop]
+
     def note(self, msg):
         if msg not in self.notes:
             self.notes.append(msg)
